@@ -62,6 +62,7 @@ type mutexState struct {
 	owner   *goroutine
 }
 type wgState struct{ n int64 }
+type condState struct{ next, released int } // tickets handed to waiters / tickets released by Signal, Broadcast
 type poolState struct{ items []Value }
 
 func (m *Machine) newChan(n int) *ChanObj {
